@@ -5,18 +5,23 @@ Drives hio.core.http.httping.parseChunk exactly as Requestant/Respondent.parseBo
 from harness.core import coq_N, coq_list, coq_bool, coq_bytes, coq_option, exn_kind
 
 PROP = "C17"
-COQ_REQUIRES = ["Hio.Model.HttpLine", "Hio.Model.Chunk"]
-COQ_CHECK = "Chunk.check_case"
-COQ_CASE_TYPE = "Chunk.case"
-COQ_BRANCHES = ("Chunk.case_branches", "Chunk.n_branches")
+COQ_REQUIRES = ["Hio.Model.HttpLine", "Hio.Model.Chunk", "Hio.Model.HttpMsg"]
+COQ_CHECK = "HttpMsg.check_c17"
+COQ_CASE_TYPE = "HttpMsg.c17case"
+COQ_BRANCHES = ("HttpMsg.c17_branches", "Chunk.n_branches")
 SHARD = 150
 RULE = ("well-formed stream: 1-5 chunks of 1-40 arbitrary bytes (CR/LF included), any hex spelling of the size "
         "(case, leading zeros, blank padding), 0-3 chunk extensions per chunk (bare names, values, blank padding, "
         "empty and repeated names), 0-3 trailers, trailing pipelined bytes, cut into reads at random points, at "
         "every byte, or inside every CRLF / size line; malformed stream: size fields that are not 1*HEXDIG "
         "(sign, 0x, underscore, inner blank, empty, non-ASCII digits, LF-terminated), missing chunk-end CRLF, "
-        "trailer without ': ', over-long lines.  Non-trivial: >= 2 chunks with an extension or trailer, or a "
-        "size field containing a non-hex character")
+        "trailer without ': ', over-long lines.  Histories through the real message parsers (Respondent and "
+        "Requestant): a chunked (also content-length / close-delimited / pipelined) message whose bytes arrive in "
+        "several pieces, with parse() and close() interleaved at arbitrary points -- in particular close() while later "
+        "chunks, the last-chunk or trailers are already buffered or arrive before the next parse(); everything "
+        "buffered must be decoded exactly; truncated variants are compared with the model only.  Non-trivial: >= 2 "
+        "chunks with an extension or trailer, a size field containing a non-hex character, or a history in which "
+        "close() precedes the parsing of >= 1 buffered data chunk")
 MODELLED = ["Python bytearray/bytes slicing, find, partition, split, strip (as list functions)",
             "dict with bytes keys (insertion-ordered association list)",
             "multidict.CIMultiDict __setitem__/update/items (ordered list keyed by str.lower() of the iso-8859-1 text)",
@@ -177,8 +182,88 @@ def _mal_case(rng):
     return {"kind": kind, "reads": [h(x) for x in cut(wire, _rand_cuts(rng, wire))]}
 
 
+HEADS = {"req": b"POST /x HTTP/1.1\r\nHost: h\r\nTransfer-Encoding: chunked\r\n\r\n",
+         "resp": b"HTTP/1.1 200 OK\r\nTransfer-Encoding: chunked\r\n\r\n"}
+
+
+def _hist_ops(rng, wire, first_cut):
+    """data/parse pairs for wire[:first_cut]; then the rest in 1-3 data ops with close() somewhere among them and a
+    single parse at the end (so nothing is parsed with .closed set before everything is buffered)"""
+    ops = []
+    pre = cut(wire[:first_cut], [rng.randrange(1, max(2, first_cut)) for _ in range(rng.choice([0, 1, 3]))]) if first_cut else []
+    for frag in pre:
+        ops += [["data", h(frag)], ["parse"]]
+    if not pre:
+        ops += [["parse"]]          # a close() before the very first parse() is reset by parseMessage (directed case)
+    rest = wire[first_cut:]
+    pieces = cut(rest, [rng.randrange(1, max(2, len(rest))) for _ in range(rng.choice([0, 1, 2]))]) if rest else []
+    tail = [["data", h(x)] for x in pieces]
+    tail.insert(rng.randrange(len(tail) + 1), ["close"])
+    return ops + tail + [["parse"]]
+
+
+def _gen_hist(rng):
+    who = rng.choice(["req", "resp", "resp"])
+    r = rng.random()
+    spec = None
+    if r < 0.7:
+        spec = _rand_spec(rng); spec["tail"] = ""
+        body = build_wire(spec)
+        wire = HEADS[who] + body
+        exp = {"body": h(b"".join(unh(c["data"]) for c in spec["chunks"])),
+               "trails": expected(spec)[-1]["trails"]}
+    elif r < 0.85:
+        data = _rand_data(rng) * 2
+        if who == "req":
+            wire = b"PUT / HTTP/1.1\r\nContent-Length: %d\r\n\r\n" % len(data) + data
+        else:
+            wire = b"HTTP/1.1 200 OK\r\nContent-Length: %d\r\n\r\n" % len(data) + data
+        exp = {"body": h(data)}
+    else:
+        who = "resp"
+        data = _rand_data(rng) * 2
+        wire = b"HTTP/1.0 200 OK\r\n\r\n" + data
+        exp = {"body": h(data)}
+    expects = [exp]
+    if r < 0.85 and rng.random() < 0.2:      # a pipelined second message, complete
+        wire += (b"GET /2 HTTP/1.1\r\n\r\n" if who == "req" else b"HTTP/1.1 204 No\r\n\r\n")
+        expects.append({"body": ""})
+    head_len = wire.find(b"\r\n\r\n") + 4
+    first_cut = rng.choice([0, rng.randrange(1, head_len), head_len, rng.randrange(head_len, len(wire) + 1),
+                            rng.randrange(head_len, len(wire) + 1)])
+    case = {"kind": "hist", "who": who, "ops": _hist_ops(rng, wire, first_cut), "expect": expects}
+    if rng.random() < 0.15:                  # truncated: closure with the message incomplete (model comparison only)
+        k = rng.randrange(1, len(wire))
+        case = {"kind": "hist", "who": who, "ops": _hist_ops(rng, wire[:k], min(first_cut, k)), "expect": None}
+    return case
+
+
+def _hist_case(who, steps, expect):
+    ops = []
+    for st in steps:
+        ops.append(["data", h(st)] if isinstance(st, bytes) else [st])
+    return {"kind": "hist", "who": who, "ops": ops, "expect": expect}
+
+
 def directed():
     out = []
+    body = b"3\r\nabc\r\n4;x=y\r\ndefg\r\n0\r\nT: 1\r\n\r\n"
+    exp = [{"body": h(b"abcdefg"), "trails": [[h(b"t"), h(b"1")]]}]
+    for who in ("req", "resp"):
+        hd = HEADS[who]
+        out.append(_hist_case(who, [hd + b"3\r\nab", "parse", b"c\r\n4;x=y\r\ndefg\r\n0\r\nT: 1\r\n\r\n", "close", "parse"], exp))
+        out.append(_hist_case(who, [hd, "parse", "close", body, "parse"], exp))
+        out.append(_hist_case(who, [hd[:9], "parse", hd[9:] + body[:8], "close", body[8:], "parse"], exp))
+        out.append(_hist_case(who, ["close", hd + body, "parse"], exp))            # close before the first parse is reset
+        out.append(_hist_case(who, [hd + body[:8], "parse", "close", "parse"], None))   # dry after a data chunk
+        out.append(_hist_case(who, [hd + body[:5], "parse", "close", "parse", "parse"], None))   # dry inside a chunk
+        out.append(_hist_case(who, [hd, "parse", "close", "parse"], None))
+        out.append(_hist_case(who, [hd[:20], "parse", "close", "parse"], None))
+    out.append(_hist_case("resp", [b"HTTP/1.0 200 OK\r\n\r\nabc", "parse", b"def", "close", "parse"], [{"body": h(b"abcdef")}]))
+    out.append(_hist_case("resp", [b"HTTP/1.1 200 OK\r\nContent-Length: 6\r\n\r\nabc", "parse", "close", b"def", "parse"], [{"body": h(b"abcdef")}]))
+    out.append(_hist_case("req", [b"PUT / HTTP/1.1\r\nContent-Length: 6\r\n\r\nabc", "parse", "close", "parse"], None))
+    out.append(_hist_case("resp", [b"HTTP/1.1 200 OK\r\nContent-Length: 6\r\n\r\nabc", "parse", "close", "parse", "parse"], None))
+    out.append(_hist_case("resp", [b"HTTP/1.1 100 Continue\r\n\r\n", "parse", "close", "parse"], None))
     spec = {"chunks": [{"hex": h(b"5"), "ext": [[h(b"a"), h(b"b"), None], [h(b"n"), None, None]], "data": h(b"he\r\nl")},
                        {"hex": h(b"00A"), "ext": [], "data": h(b"0123456789")}],
             "zeros": h(b"0"), "lastext": [[h(b"z"), h(b"1"), None]],
@@ -214,6 +299,8 @@ def generate(rng, tier):
         out.append({"kind": "wf", "spec": spec, "reads": [h(x) for x in cut(w, _rand_cuts(rng, w))]})
     for _ in range(n_mal):
         out.append(_mal_case(rng))
+    for _ in range(250 if tier == "quick" else 2500):
+        out.append(_gen_hist(rng))
     return out
 
 
@@ -248,7 +335,50 @@ def run_reads(reads):
     return {"chunks": chunks, "err": err, "done": done, "left": h(raw)}
 
 
+class _Remoter:
+    tymeout = 5.0
+
+
+def run_hist(who, ops):
+    """the real Requestant / Respondent; parse = step until it yields None (three times, so that a closure test that
+    sits behind a yield is reached), makeParser() after every ended message"""
+    from hio.core.http import serving, clienting
+    from harness.drivers import c13
+    if who == "req":
+        p = serving.Requestant(msg=bytearray(), remoter=_Remoter())
+    else:
+        p = clienting.Respondent(msg=bytearray(), method="GET")
+    msgs, err, errtext = [], None, None
+
+    def pump():
+        nonlocal err, errtext
+        while err is None:
+            try:
+                p.parse()
+            except Exception as ex:  # noqa
+                err, errtext = exn_kind(ex), f"{type(ex).__name__}: {ex}"
+                return
+            if p.parser is not None:
+                return
+            if p.errored:
+                err, errtext = "HTTPExc", p.error
+                return
+            msgs.append(c13._snapshot(who, p))
+            p.makeParser()
+
+    for op in ops:
+        if op[0] == "data":
+            p.msg.extend(unh(op[1]))
+        elif op[0] == "close":
+            p.close()
+        else:
+            pump(); pump(); pump()
+    return {"msgs": msgs, "err": err, "errtext": errtext, "left": h(p.msg)}
+
+
 def run_impl(case):
+    if case["kind"] == "hist":
+        return run_hist(case["who"], case["ops"])
     return run_reads([unh(x) for x in case["reads"]])
 
 
@@ -288,7 +418,29 @@ def first_size_field(wire):
     return wire[:i].split(b";")[0]
 
 
+def oracle_hist(case, obs):
+    exp = case.get("expect")
+    if exp is None:
+        return None
+    # every byte was buffered before the last parse: closure must not have changed what is decoded
+    if obs["err"] is not None:
+        return f"fully buffered message rejected ({obs['errtext']}) in a history with close()"
+    if len(obs["msgs"]) != len(exp):
+        return f"{len(exp)} complete message(s) buffered, {len(obs['msgs'])} decoded; left in buffer: {obs['left'][:80]}"
+    for i, (m, e) in enumerate(zip(obs["msgs"], exp)):
+        if m["body"] != e["body"]:
+            return (f"message {i}: body decoded as {len(m['body']) // 2} bytes {m['body'][:60]}, sent "
+                    f"{len(e['body']) // 2} bytes {e['body'][:60]}; left in buffer: {obs['left'][:80]}")
+        if "trails" in e and (m["trails"] or []) != e["trails"]:
+            return f"message {i}: trailers {m['trails']} but {e['trails']} were sent"
+    if obs["left"] != "":
+        return f"undecoded bytes left in the buffer: {obs['left'][:80]}"
+    return None
+
+
 def oracle(case, obs):
+    if case["kind"] == "hist":
+        return oracle_hist(case, obs)
     reads = [unh(x) for x in case["reads"]]
     wire = b"".join(reads)
     whole = run_reads([wire])
@@ -376,7 +528,24 @@ def coq_chunk(c):
         coq_N(c["size"]), coq_parms(c["parms"]), coq_headers(c["trails"]), coq_hexbytes(c["data"])))
 
 
+def _coq_op(op):
+    if op[0] == "data":
+        return f"(HttpMsg.OData {coq_hexbytes(op[1])})"
+    return "HttpMsg.OClose" if op[0] == "close" else "HttpMsg.OParse"
+
+
 def to_coq(case, obs):
+    if case["kind"] == "hist":
+        from harness.drivers import c13
+        return ("(HttpMsg.KHist {| HttpMsg.h_kind := %s; HttpMsg.h_ops := %s; HttpMsg.h_msgs := %s; HttpMsg.h_err := %s; "
+                "HttpMsg.h_left := %s |})" % (
+                    c13._kind(case["who"]), coq_list([_coq_op(o) for o in case["ops"]], "HttpMsg.op"),
+                    coq_list([c13.coq_omsg(m) for m in obs["msgs"]], "HttpMsg.omsg"),
+                    coq_option(obs["err"], lambda x: x, "exn"), coq_hexbytes(obs["left"] if obs["err"] is None else "")))
+    return "(HttpMsg.KChunk %s)" % _to_coq_chunk(case, obs)
+
+
+def _to_coq_chunk(case, obs):
     return ("{| Chunk.c_reads := %s; Chunk.c_chunks := %s; Chunk.c_err := %s; Chunk.c_done := %s; Chunk.c_left := %s |}" % (
         coq_list([coq_hexbytes(x) for x in case["reads"]], "bytes"),
         coq_list([coq_chunk(c) for c in obs["chunks"]], "Chunk.chunk"),
@@ -385,6 +554,12 @@ def to_coq(case, obs):
 
 
 def nontrivial(case, obs):
+    if case["kind"] == "hist":
+        ops = case["ops"]
+        if ["close"] not in ops or not obs.get("msgs"):
+            return False
+        i = ops.index(["close"])
+        return any(o == ["parse"] for o in ops[:i]) and len(obs["msgs"][0]["body"]) > 0
     if case["kind"] == "wf":
         s = case["spec"]
         return len(s["chunks"]) >= 2 and (any(c["ext"] for c in s["chunks"]) or bool(s["trailers"]) or bool(s["lastext"]))
@@ -398,6 +573,12 @@ def classify(case, obs, why):
 
 
 def shrink(case):
+    if case["kind"] == "hist":
+        ops = case["ops"]
+        for i in range(len(ops) - 1):
+            if ops[i][0] == "data" and ops[i + 1][0] == "data":
+                yield dict(case, ops=ops[:i] + [["data", ops[i][1] + ops[i + 1][1]]] + ops[i + 2:])
+        return
     reads = case["reads"]
     if len(reads) > 1:
         yield dict(case, reads=["".join(reads)])
@@ -409,7 +590,7 @@ def distribution(cases, obs):
     kinds = {}
     for c in cases:
         kinds[c.get("kind", "?")] = kinds.get(c.get("kind", "?"), 0) + 1
-    nreads = sorted(len(c["reads"]) for c in cases)
+    nreads = sorted(len(c["reads"]) if "reads" in c else len(c["ops"]) for c in cases)
     return {"kinds": kinds, "reads_median": nreads[len(nreads) // 2], "reads_max": nreads[-1],
             "errors": sum(1 for o in obs if isinstance(o, dict) and o.get("err"))}
 
